@@ -7,6 +7,11 @@ HERE = os.path.dirname(os.path.dirname(os.path.abspath(__file__)))
 
 # id -> (engine, technique, level text, level note, design ref)
 CHECKS = {
+    "C13": ("XH", "CrossHair-driven exhaustive enumeration (z3 choice variables) of column descriptions x limits x record sets x life stages; real PPTable code executed per case",
+            "bounded exhaustive exploration with exhaustion certificate: every 1-column description within the width bound and 2-3 column combinations of representative descriptors, "
+            "at every life stage; the reported fmt string is fed to the setter and the constructor and all renderings compared",
+            "structural property: the solver enumerates (widths are rendered into the format string, so they cannot stay symbolic); bounded sizes",
+            "DESIGN.md 3/C13"),
     "C09": ("P2S+RX+XH", "AST->z3 execution of the real sequence builder (symbolic color ints/bools), reference SGR interpreter forking on the same solver, "
             "z3 regex inclusion against the live strip pattern; CrossHair enumeration through the real ColorFmt/ColorBytes/CHText objects",
             "bounded model checking: for ALL int color codes / (r,g,b) components / gray shades and all effect combinations, every path of the real source is "
